@@ -37,12 +37,13 @@ def validate(traces, tag="batch"):
         json.dump(traces, open(f, "w"))
         res = run_tlc("TraceTracer", CFG, workers=1, timeout=1200, env={"TRACE_FILE": f}, parse_json=False)
         rej = set()
-        m = re.search(r'<<"REJECTED", \{([^}]*)\}>>', res.out)
-        if m:
-            rej = {int(x) - 1 for x in m.group(1).split(",") if x.strip()}
+        i = res.out.find('"REJECTED"')
+        if i >= 0:
+            # TLC pretty-prints a long set over many lines: take every integer up to the closing >>
+            j = res.out.find(">>", i)
+            rej = {int(x) - 1 for x in re.findall(r"\d+", res.out[i + len('"REJECTED"'):j if j > 0 else None])}
         elif res.violated or res.error:
-            if "Post" not in (res.violated or "") and not m:
-                raise Machinery("trace validation failed to run (%s):\n%s" % (tag, res.out[-1500:]))
+            raise Machinery("trace validation failed to run (%s):\n%s" % (tag, res.out[-1500:]))
         return rej, res
     finally:
         shutil.rmtree(tmp, ignore_errors=True)
@@ -62,19 +63,24 @@ def check_traces(rep, named_traces, what):
     rep.replayed(len(evs))
     for i, (name, e) in enumerate(named_traces):
         rep.case(("trace", what, name), nontrivial=len(e) >= 5)
-    for i in sorted(rej):
+    for n_, i in enumerate(sorted(rej)):
         name, e = named_traces[i]
-        k = first_unmatched(e)
+        k = first_unmatched(e) if n_ < 5 else None
         ev = e[k] if k is not None and k < len(e) else None
         clause = ev["ev"] if ev else "?"
         rep.violation("trace rejected at %s [%s]" % (clause, what), {"trace": name, "first_unmatched_index": k, "event": ev,
                                                                         "previous_events": e[max(0, (k or 0) - 3):(k or 0)]})
+    check_traces.accepted = [nt for i, nt in enumerate(named_traces) if i not in rej]
     return len(evs) - len(rej)
 
 
 def self_test(named_traces):
-    """a corrupted field / a removed event must be rejected"""
-    name, e = next((n, e) for n, e in named_traces if sum(1 for x in e if x["ev"] == "PbNode") >= 3)
+    """a corrupted field / a removed event must be rejected (uses a trace the specification accepts; when the tree under
+    test is so broken that none is accepted the violations have been reported already and there is nothing to self-test)"""
+    cand = [(n, e) for n, e in named_traces if sum(1 for x in e if x["ev"] == "PbNode") >= 3]
+    if not cand:
+        return
+    name, e = cand[0]
     bad1 = json.loads(json.dumps(e))
     i = next(i for i, x in enumerate(bad1) if x["ev"] == "Create" and x["id"] >= 1)
     bad1[i]["id"] += 1
